@@ -168,10 +168,17 @@ StrTrees ==
      Call("join", <<Str("'-'"), Call("split", <<Str("','"), Str("'a,b'")>>)>>),
      Call("head", <<Call("splitw", <<Str("'a b  c'")>>)>>),
      Call("list", <<Str("'a'"), Num("2")>>)}
+\* IEEE special values: produced by division (1/0 = inf, 0/0 = NaN), they flow through arithmetic
+\* and comparison like any number - every comparison with NaN is false except `ne`
+SpecialLeaves == {Bin("/", Num("0"), Num("0")), Bin("/", Num("1"), Num("0")), Neg(Bin("/", Num("1"), Num("0")))}
+SpecialTrees ==
+    SpecialLeaves
+    \cup {Bin(o, l, r) : o \in CmpOps \cup AddOps \cup {"*", "/"}, l \in SpecialLeaves \cup {Num("1"), Num("0")}, r \in SpecialLeaves \cup {Num("1")}}
+    \cup {Call(f, <<l, r>>) : f \in CmpOps, l \in SpecialLeaves \cup {Num("1")}, r \in SpecialLeaves \cup {Num("1")}}
 NestedCalls == {Bin("+", Call("max", <<Num("1"), Call("abs", <<Neg(Var("a"))>>)>>), Bin("*", Num("2"), Call("min", <<x, Num("3")>>))) : x \in ArgPool}
 
 GoodCases ==
-    {[fam |-> "good", tree |-> t, red |-> r, toks |-> Unparse(t, 1, r)] : t \in D1 \cup D2 \cup CallTrees \cup NestedCalls \cup ListTrees \cup StrTrees, r \in BOOLEAN}
+    {[fam |-> "good", tree |-> t, red |-> r, toks |-> Unparse(t, 1, r)] : t \in D1 \cup D2 \cup CallTrees \cup NestedCalls \cup ListTrees \cup StrTrees \cup SpecialTrees, r \in BOOLEAN}
 
 \* malformed: derived from good token strings
 Drop(ts, i) == SubSeq(ts, 1, i - 1) \o SubSeq(ts, i + 1, Len(ts))
